@@ -322,6 +322,7 @@ def read_outputs(cwd, outputs):
 TRACED = ["write", "pwrite64", "read", "pread64", "ftruncate", "fsync", "fdatasync", "msync", "mmap", "openat"]
 INJ_ERR = {"write": "ENOSPC", "pwrite64": "ENOSPC", "read": "EIO", "pread64": "EIO", "ftruncate": "ENOSPC", "fsync": "EIO",
            "fdatasync": "EIO", "msync": "EIO", "mmap": "ENOMEM", "openat": "ENOSPC"}
+SHIM_CALLS = {"write": "write", "pwrite64": "pwrite", "read": "read", "pread64": "pread", "ftruncate": "ftruncate"}
 LINE = re.compile(r"^(\d+)\s+(\w+)\((.*)$")
 
 
@@ -352,10 +353,10 @@ def profile(tool, workdir):
     tr = os.path.join(workdir, "trace.txt")
     rc = run_cmd(tool.argv, workdir, tool.stdin, tool.stdout, timeout=120,
                  prefix=["strace", "-f", "-y", "-s", "0", "-o", tr, "-e", "trace=" + ",".join(TRACED)])
-    per = {}
     counts = {}
     ks = {sc: set() for sc in TRACED}
     total = {sc: 0 for sc in TRACED}
+    wide = {sc: 0 for sc in TRACED}        # process-wide number of calls on descriptors > 2
     if os.path.exists(tr):
         for line in open(tr, errors="replace"):
             m = LINE.match(line)
@@ -367,10 +368,13 @@ def profile(tool, workdir):
             c = counts.get((pid, sc), 0) + 1
             counts[(pid, sc)] = c
             total[sc] += 1
+            mfd = re.match(r"(\d+)<", args)
+            if mfd and int(mfd.group(1)) > 2:
+                wide[sc] += 1
             if data_call(sc, args, workdir):
                 ks[sc].add(c)
         os.remove(tr)
-    return rc, {sc: sorted(v) for sc, v in ks.items()}, total
+    return rc, {sc: sorted(v) for sc, v in ks.items()}, total, wide
 
 
 def magic_complete(b):
@@ -432,7 +436,7 @@ def tool_level(ctx, shim):
         if rc != 0:
             raise vlib.InfraError("cannot prepare interpolate inputs (lmplz --intermediate rc=%d)" % rc)
     specs = tool_specs(bins, base)
-    cap = ctx.pick(14, 10 ** 9)
+    cap = ctx.pick(12, 10 ** 9)
     errs_for = (lambda sc: [INJ_ERR[sc]]) if ctx.quick else (lambda sc: sorted({INJ_ERR[sc], "EIO", "ENOSPC", "ENOMEM"}))
     jobs = []
     baselines = {}
@@ -446,7 +450,7 @@ def tool_level(ctx, shim):
             ctx.report("tool-baseline:" + t.name, "fault-free run of %s fails (rc=%s)" % (t.name, rc), {"argv": t.argv, "rc": rc})
             continue
         w2 = fresh_dir(base, t.name + ".prof")
-        rc2, ks, total = profile(t, w2)
+        rc2, ks, total, wide = profile(t, w2)
         outs2 = read_outputs(w2, t.outputs)
         if rc2 != 0 or outs2 != outs:
             ctx.report("tool-determinism:" + t.name, "two fault-free runs of %s differ (second one under strace)" % t.name, {"argv": t.argv, "rc": rc2})
@@ -458,10 +462,16 @@ def tool_level(ctx, shim):
             for k in choose_ks(ks[sc], cap, ctx.rng):
                 for err in errs_for(sc):
                     jobs.append((t, "inject", sc, k, err))
+        # single faults counted process-wide through the shim (strace counts per thread): the tools that run threads
+        if os.path.basename(t.argv[0]) in ("lmplz", "interpolate", "filter"):
+            for sc, call in SHIM_CALLS.items():
+                n = wide.get(sc, 0)
+                for k in choose_ks(list(range(1, n + 1)), ctx.pick(8, 10 ** 9), ctx.rng):
+                    jobs.append((t, "shimfail", call, k, str(ERRNO[INJ_ERR[sc]])))
         for s in range(ctx.pick(3, 25)):
             jobs.append((t, "storm", "", ctx.rng.below(1 << 30), ["150", "400", "700"][s % 3]))
 
-    tmo = ctx.pick(10, 30)
+    tmo = ctx.pick(6, 15)
 
     def attempt(job, timeout):
         t, mode, sc, k, err = job
@@ -480,18 +490,32 @@ def tool_level(ctx, shim):
                     if "(INJECTED)" in line:
                         hit.add(pid)
                 where = "none" if not hit else "main-thread" if hit == {main} else "worker-thread" if main not in hit else "main-and-worker-threads"
+        elif mode == "shimfail":
+            rc = run_cmd(t.argv, w, t.stdin, t.stdout, timeout=timeout, env={"LD_PRELOAD": shim, "IO_SHIM_FAIL": "%s:%d:%s" % (sc, k, err), "IO_SHIM_FAIL_REPORT": os.path.join(w, "fail.report")})
+            if rc == 124:
+                rp = os.path.join(w, "fail.report")
+                where = open(rp).read().strip() if os.path.exists(rp) else "none"
         else:
             rc = run_cmd(t.argv, w, t.stdin, t.stdout, timeout=timeout, env={"LD_PRELOAD": shim, "IO_SHIM_STORM": "%d:%s" % (k, err)})
         outs = read_outputs(w, t.outputs)
         shutil.rmtree(w, ignore_errors=True)
         return rc, outs, where
 
+    confirmed = {}
+
     def one(job):
         rc, outs, where = attempt(job, tmo)
-        if rc == 124:       # confirm a hang with three times the time before calling it one
-            rc, outs, where = attempt(job, 3 * tmo)
+        if rc == 124:
+            # confirm a hang with three times the time before calling it one; after one confirmed hang of the same class
+            # (tool, thread the fault reached) further ones are taken at the basic timeout
+            key = (os.path.basename(job[0].argv[0]), where)
+            if confirmed.get(key, 0) < 1:
+                rc, outs, where = attempt(job, 3 * tmo)
+                if rc == 124:
+                    confirmed[key] = confirmed.get(key, 0) + 1
         return job, rc, outs, where
 
+    ctx.rng.shuffle(jobs)      # spread the slow (hanging) runs over the workers
     results = []
     with concurrent.futures.ThreadPoolExecutor(max_workers=min(8, vlib.NPROC)) as ex:
         for r in ex.map(one, jobs):
@@ -499,17 +523,18 @@ def tool_level(ctx, shim):
     distinct = set()
     for (t, mode, sc, k, err), rc, outs, where in results:
         stats["runs"] += 1
-        pt = stats["per_tool"].setdefault(t.name, {"inject": 0, "storm": 0, "nonzero": 0, "exit0_identical": 0})
+        pt = stats["per_tool"].setdefault(t.name, {"inject": 0, "shimfail": 0, "storm": 0, "nonzero": 0, "exit0_identical": 0})
         pt[mode] += 1
         base_outs = baselines[t.name]
         replay = {"tool": t.name, "argv": t.argv, "stdin": t.stdin, "stdout": t.stdout, "mode": mode, "syscall": sc, "k": k, "errno": err, "rc": rc,
                   "how": ("strace -f -o /dev/null -e trace=%s -e inject=%s:error=%s:when=%d <argv>" % (sc, sc, err, k)) if mode == "inject"
+                  else ("LD_PRELOAD=io_shim.so IO_SHIM_FAIL=%s:%d:%s <argv>" % (sc, k, err)) if mode == "shimfail"
                   else "LD_PRELOAD=io_shim.so IO_SHIM_STORM=%d:%s <argv>" % (k, err)}
         if rc == 124:
             stats["timeouts"] += 1
             replay["fault_hit"] = where
             binname = os.path.basename(t.argv[0])
-            sig = "tool:%s:hang:fault-in-%s" % (binname, where) if mode == "inject" else "tool:%s:hang:storm" % binname
+            sig = "tool:%s:hang:fault-in-%s" % (binname, where) if mode in ("inject", "shimfail") else "tool:%s:hang:storm" % binname
             ctx.report(sig, "%s neither finished nor failed within %d s after %s (the injected error reached: %s)" % (t.name, 3 * tmo, replay["how"], where), replay)
             continue
         if mode == "storm":
@@ -589,7 +614,7 @@ def run(ctx):
     rng = ctx.rng
     cases = corpus_cases()
     ctx.count("corpus_cases", len(cases))
-    cases += gen_loop_cases(rng, ctx.pick(2500, 40000)) + gen_stream_cases(rng, ctx.pick(900, 12000), kconst)
+    cases += gen_loop_cases(rng, ctx.pick(1600, 40000)) + gen_stream_cases(rng, ctx.pick(500, 12000), kconst)
     stripped = [strip_case(c) for c in cases]
     iout = run_impl(drv, shim, cases, ctx.scratch)
     iout_stripped = run_impl(drv, shim, stripped, ctx.scratch)
@@ -693,6 +718,8 @@ def replay(ctx, obj):
         if r["mode"] == "inject":
             rc = run_cmd(t.argv, w, t.stdin, t.stdout, prefix=["strace", "-f", "-o", "/dev/null", "-e", "trace=" + r["syscall"], "-e",
                                                                "inject=%s:error=%s:when=%d" % (r["syscall"], r["errno"], r["k"])])
+        elif r["mode"] == "shimfail":
+            rc = run_cmd(t.argv, w, t.stdin, t.stdout, env={"LD_PRELOAD": shim, "IO_SHIM_FAIL": "%s:%d:%s" % (r["syscall"], r["k"], r["errno"])})
         else:
             rc = run_cmd(t.argv, w, t.stdin, t.stdout, env={"LD_PRELOAD": shim, "IO_SHIM_STORM": "%d:%s" % (r["k"], r["errno"])})
         outs = read_outputs(w, t.outputs)
